@@ -1,55 +1,52 @@
-// scratch probe: randomized -- durable commits, a pending non-durable commit, a caught panic inside a write
-// transaction, then check_integrity() twice, at a given page size
-use redb::{Database, Durability, TableDefinition, ReadableDatabase, ReadableTable};
-use redb::backends::InMemoryBackend;
+// scratch probe: does a read reach the storage backend after close() when a reader thread races the drop of the Database?
+use redb::{Database, ReadableDatabase, ReadableTable, StorageBackend, TableDefinition};
+use std::sync::atomic::{AtomicBool, AtomicU64, Ordering};
+use std::sync::{Arc, Mutex};
 const T: TableDefinition<u64, &[u8]> = TableDefinition::new("t");
-fn rnd(s: &mut u64) -> u64 { *s ^= *s << 13; *s ^= *s >> 7; *s ^= *s << 17; *s }
+
+#[derive(Debug, Clone)]
+struct Mon { data: Arc<Mutex<(Vec<u8>, bool, u64)>>, after_close: Arc<AtomicU64> }
+impl StorageBackend for Mon {
+    fn len(&self) -> std::io::Result<u64> { Ok(self.data.lock().unwrap().0.len() as u64) }
+    fn read(&self, off: u64, out: &mut [u8]) -> std::io::Result<()> {
+        let g = self.data.lock().unwrap();
+        if g.1 { self.after_close.fetch_add(1, Ordering::SeqCst); }
+        out.copy_from_slice(&g.0[off as usize..off as usize + out.len()]); Ok(())
+    }
+    fn set_len(&self, len: u64) -> std::io::Result<()> { self.data.lock().unwrap().0.resize(len as usize, 0); Ok(()) }
+    fn sync_data(&self) -> std::io::Result<()> { Ok(()) }
+    fn write(&self, off: u64, d: &[u8]) -> std::io::Result<()> { let mut g = self.data.lock().unwrap(); g.0[off as usize..off as usize + d.len()].copy_from_slice(d); Ok(()) }
+    fn close(&self) -> std::io::Result<()> { self.data.lock().unwrap().1 = true; Ok(()) }
+}
 
 fn main() {
-    let ps: usize = std::env::args().nth(1).and_then(|s| s.parse().ok()).unwrap_or(4096);
-    let mut bad = 0;
-    for case in 0..3000u64 {
-        let mut s = 0x9E3779B97F4A7C15u64 ^ (case * 77 + 1);
-        let r = std::panic::catch_unwind(std::panic::AssertUnwindSafe(|| {
-            let mut b = Database::builder();
-            b.verif_set_page_size(ps);
-            b.set_cache_size([0usize, 4096, 1 << 20][(case % 3) as usize]);
-            let mut db = b.create_with_backend(InMemoryBackend::new()).unwrap();
-            let mut model = std::collections::BTreeMap::new();
-            let mut write = |db: &Database, durable: bool, s: &mut u64, model: &mut std::collections::BTreeMap<u64, Vec<u8>>| {
-                let mut txn = db.begin_write().unwrap();
-                if !durable { txn.set_durability(Durability::None).unwrap(); }
-                { let mut t = txn.open_table(T).unwrap();
-                  for _ in 0..(rnd(s) % 60) {
-                    let k = rnd(s) % 300;
-                    if rnd(s) % 3 == 0 { t.remove(k).unwrap(); model.remove(&k); }
-                    else { let v = vec![(k % 251) as u8; (rnd(s) % (ps as u64 / 2)) as usize]; t.insert(k, v.as_slice()).unwrap(); model.insert(k, v); }
-                  } }
-                txn.commit().unwrap();
-            };
-            for _ in 0..(1 + rnd(&mut s) % 4) { write(&db, true, &mut s, &mut model); }
-            for _ in 0..(1 + rnd(&mut s) % 3) { write(&db, false, &mut s, &mut model); }
-            let r = std::panic::catch_unwind(std::panic::AssertUnwindSafe(|| {
-                let txn = db.begin_write().unwrap();
-                let mut t = txn.open_table(T).unwrap();
-                for _ in 0..(1 + rnd(&mut s) % 80) { let k = 1000 + rnd(&mut s) % 300; t.insert(k, vec![9u8; (rnd(&mut s) % (ps as u64 / 2)) as usize].as_slice()).unwrap(); }
-                drop(t);
-                panic!("application bug");
-            }));
-            assert!(r.is_err());
-            let a = db.check_integrity();
-            let b = db.check_integrity();
-            let rt = db.begin_read().unwrap();
+    let mut hits = 0;
+    let rounds = 1500;
+    for _ in 0..rounds {
+        let mon = Mon { data: Arc::new(Mutex::new((vec![], false, 0))), after_close: Arc::new(AtomicU64::new(0)) };
+        let mut b = Database::builder();
+        b.set_cache_size(0);
+        let db = b.create_with_backend(mon.clone()).unwrap();
+        let txn = db.begin_write().unwrap();
+        { let mut t = txn.open_table(T).unwrap(); for i in 0..400u64 { t.insert(i, [7u8; 200].as_slice()).unwrap(); } }
+        txn.commit().unwrap();
+        let rt = db.begin_read().unwrap();
+        let stop = Arc::new(AtomicBool::new(false));
+        let s2 = stop.clone();
+        let h = std::thread::spawn(move || {
             let t = rt.open_table(T).unwrap();
-            let got: std::collections::BTreeMap<u64, Vec<u8>> = t.iter().unwrap().map(|e| { let (k, v) = e.unwrap(); (k.value(), v.value().to_vec()) }).collect();
-            (format!("{a:?} {b:?}"), got == model)
-        }));
-        match r {
-            Ok((s, same)) if s == "Ok(false) Ok(true)" && same => {}
-            Ok((s, same)) if s == "Ok(true) Ok(true)" && same => {}
-            Ok((s, same)) => { bad += 1; if bad < 6 { println!("case {case}: check_integrity x2 = {s}; contents intact = {same}"); } }
-            Err(e) => { bad += 1; if bad < 6 { println!("case {case}: panic {:?}", e.downcast_ref::<String>().cloned().or_else(|| e.downcast_ref::<&str>().map(|s| s.to_string()))); } }
-        }
+            let mut i = 0u64;
+            while !s2.load(Ordering::Relaxed) {
+                let _ = t.get(i % 400).map(|g| g.map(|v| v.value().len()));
+                i += 1;
+            }
+        });
+        std::thread::sleep(std::time::Duration::from_millis(2));
+        drop(db);
+        std::thread::sleep(std::time::Duration::from_millis(1));
+        stop.store(true, Ordering::Relaxed);
+        h.join().unwrap();
+        if mon.after_close.load(Ordering::SeqCst) > 0 { hits += 1; }
     }
-    println!("page size {ps}: {bad} bad cases of 3000");
+    println!("rounds in which a read() reached the backend after close(): {hits} of {rounds}");
 }
